@@ -1349,3 +1349,75 @@ def ref_constructors(units, R):
                     why = 'temporary whose use is tied to cJSON_StringIsConst in this function'
             R.ob('REFC', fn2, c, 'const-dropped pointer is only stored under an ownership flag', ok, why, key='cac:%s' % fn2.name)
     R.floor('REFC', 'reference constructors / cast_away_const uses', n, 5)
+
+
+def own8(units, R):
+    """A payload pointer copied from one node to another (X->string = Y->string, valuestring, child) takes the
+    ownership bit that describes it along: the copy is under a test of Y's bit, or X->type is assigned from Y->type in
+    the same function, or the whole node is copied and then re-flagged (create_reference)."""
+    u = units['cJSON.c']
+    n = 0
+    for fn in u.function_list:
+        for a in assignments(fn):
+            if a['op'] != '=':
+                continue
+            l = strip_casts(a['l'])
+            if l.get('k') != 'mem' or l['f'] not in FLAG_FOR_FIELD:
+                continue
+            if 'cJSON' not in u.ty(strip_casts(l['b'])['ty'])['s']:
+                continue
+            X = expr_str(strip_casts(l['b']))
+            srcs = [x for x in walk(a['r']) if x.get('k') == 'mem' and x['f'] == l['f'] and
+                    'cJSON' in u.ty(strip_casts(x['b'])['ty'])['s'] and expr_str(strip_casts(x['b'])) != X]
+            # only direct copies (possibly one arm of a conditional), not arguments of a copying call
+            par = fn.parents()
+            direct = []
+            for x in srcs:
+                p2 = par.get(x['id'])
+                while p2 is not None and p2.get('k') == 'cast':
+                    p2 = par.get(p2['id'])
+                if p2 is a or (p2 is not None and p2.get('k') == 'cond'):
+                    direct.append(x)
+            for x in direct:
+                n += 1
+                Y = expr_str(strip_casts(x['b']))
+                flag = FLAG_FOR_FIELD[l['f']]
+                # (a) under a test of Y's bit
+                cfg = fn.cfg()
+                tested = False
+                p2 = par.get(x['id'])
+                while p2 is not None and p2.get('k') == 'cast':
+                    p2 = par.get(p2['id'])
+                if p2 is not None and p2.get('k') == 'cond' and any(flag in (y.get('m') or []) for y in walk(p2['c'])) and \
+                        any(expr_str(y) == '%s->type' % Y for y in walk(p2['c'])):
+                    tested = True
+                # (b) the type of X is assigned from the type of Y
+                carried = False
+                for b in assignments(fn):
+                    lb = strip_casts(b['l'])
+                    if lb.get('k') == 'mem' and lb['f'] == 'type' and expr_str(strip_casts(lb['b'])) == X:
+                        bit = 256 if flag == 'cJSON_IsReference' else 512
+                        for y in walk(b['r']):
+                            if expr_str(y) != '%s->type' % Y or y.get('k') != 'mem':
+                                continue
+                            # the bit survives unless Y->type is ANDed with a mask that clears it on the way up
+                            q = par.get(y['id'])
+                            child = y
+                            masked = False
+                            while q is not None and q is not b:
+                                if q.get('k') == 'bin' and q['op'] == '&':
+                                    other = q['r'] if q['l'] is child or strip_casts(q['l']) is child else q['l']
+                                    mv = const_val(other)
+                                    if mv is not None and (mv & bit) == 0:
+                                        masked = True
+                                child = q
+                                q = par.get(q['id'])
+                            if not masked:
+                                carried = True
+                ok = tested or carried
+                R.ob('OWN8', fn, a, 'pointer %s copied from %s keeps its ownership bit %s' % (l['f'], Y, flag), ok,
+                     'copied under a test of the bit' if tested else ('type copied from %s' % Y if carried else
+                     '%s->%s now points at memory whose ownership is described by %s->type, but %s is not carried over: '
+                     'borrowed memory would be released (or owned memory leaked)' % (X, l['f'], Y, flag)),
+                     key='carry:%s:%s' % (l['f'], Y))
+    R.floor('OWN8', 'payload pointers copied between nodes', n, 1)
